@@ -2,6 +2,7 @@
 import itertools
 
 ID = 'C06'
+LEAN_MODULES = ['C06', 'C06b']
 RULE = ('one case = 2-4 real nodes over loopback RPC; bulk writes (put_many/del_many shapes: 1-300 documents under one stamp through the real multi_put/multi_del) and, for every operation kind (put, del) and every subset S of the other nodes standing for the replicas the level selected (sizes 0..n-1: None, One, Two, Three, '
         'quorum-sized, All), every subset of S is made unable to acknowledge (its next storage mutation fails, or it has crashed and refuses connections while still selected, or - separate stream - it stays SILENT: its storage call writes and never returns, and the call must still come back with the consistency error within the advertised timeout), the write is issued through the real handle_consistency_distribution, and immediately afterwards '
         'Storage::get is called on the issuer and on every selected node. Checked: Ok => the document (or a newer record) is readable from the issuer and from EVERY selected node; otherwise the error is '
@@ -10,7 +11,7 @@ RULE = ('one case = 2-4 real nodes over loopback RPC; bulk writes (put_many/del_
 ASSUMPTIONS = ['the replicas a level requires are chosen by the node selector (C15: select_sound gives distinct, live, non-local, enough); here S is given',
                'a silent replica is one whose storage call never returns; a silent NETWORK (black-holed connection) takes the same path in handle_consistency_distribution - the deadline is on the whole distribution, not per transport']
 TRUSTED_BASE = ['correspondence: dcharness (real ConsistencyClient/ConsistencyService + handle_consistency_distribution via hook H2) vs dcdriver (Datacake.Cluster model)']
-THEOREM_NOTE = 'Datacake.Cluster.applyAt and the wput/wdel step of the driver (Model/Cluster.lean); theorems ok_means_stored, distribute_spec, distribute_replies, silent_is_counted_out, legacy_blocks'
+THEOREM_NOTE = 'Datacake.Cluster.applyAt and the wput/wdel step of the driver (Model/Cluster.lean); Cluster.write / replicateAll / distribute is what the driver executes for wput/wdel/wmput/wmdel; theorems ok_means_stored, distribute_spec, distribute_replies, silent_is_counted_out, legacy_blocks, and about the executed function itself (Props/C06b): replicateAll_spec, write_spec'
 JOBS = 6
 SHRINK = False
 
